@@ -5,6 +5,7 @@ import (
 	"fmt"
 	"net"
 	"net/url"
+	"strconv"
 	"strings"
 
 	"github.com/q191201771/lal/pkg/base"
@@ -535,6 +536,11 @@ func genC13(g *G) {
 		g.L("boundary-sdp").run(sessOp("fz.sess", sdp, "2/3", "0/1", its))
 		g.L("boundary-sdp").run(sessOp("rtpin.sess", sdp, "-", "-", its))     // no SETUP: every channel is 0
 		g.L("boundary-sdp").run(sessOp("rtpin.sess", sdp, "0/0", "0/0", its)) // all four the same channel
+		if si == 4 {                                                          // video only: payload type 0 (the zero value of the absent audio track, = G711U) must not reach an audio unpacker
+			pcmu := []string{item(0, c13Rtp(0, 1, 160, 0xb, 1, 0, -1, -1, []byte{1, 2, 3, 4})), its[0], item(2, c13Rtp(0, 2, 320, 0xb, 1, 0, -1, -1, []byte{5, 6})), its[5]}
+			g.L("boundary-no-audio").run(sessOp("rtpin.sess", sdp, "-", "2/3", pcmu))
+			g.L("boundary-no-audio").run(sessOp("rtpin.sess", sdp, "-", "0/1", pcmu))
+		}
 		if si < 4 {
 			for n := 0; n <= 29; n++ { // RTCP of every length up to the sender report, on both rtcp channels
 				g.L("rtcp-truncate").run(sessOp("rtpin.sess", sdp, "2/3", "0/1", []string{its[0], its[1], item(1, srFor(0xa)[:n]), item(3, srFor(0xb)[:n])}))
@@ -631,6 +637,23 @@ func genC13(g *G) {
 		for _, vt := range []byte{0x1b, 0x24} {
 			g.L("boundary-nal").run(c13BodyOp([][]byte{c13Psm(vt, 0x0f), c13Pes(0xe0, 2, 1, 0, 0, es), c13Pes(0xe0, 2, 2, 0, 0, es), c13Pes(0xe0, 2, 3, 0, 0, []byte{0, 0, 1, 0x67, 0})}))
 		}
+	}
+	// a pack header whose stuffing bytes are cut by the body boundary: FeedRtpBody waits for the rest (every cut, every stuffing count)
+	for st := 0; st <= 7; st++ {
+		ph := c13PackHeader(st)
+		tail := c13Cat(c13Pes(0xe0, 2, 90000, 0, 0, c13Cat(c13Sps, c13Pps)), c13Pes(0xe0, 2, 93600, 0, 0, c13Idr))
+		for cut := 13; cut <= len(ph); cut++ {
+			g.L("boundary-stuffing").run(c13BodyOp([][]byte{c13Psm(0x1b, 0x0f), ph[:cut], c13Cat(ph[cut:], tail)}))
+		}
+		g.L("boundary-stuffing").run(c13BodyOp([][]byte{c13Psm(0x1b, 0x0f), ph[:len(ph)-st/2], c13Cat([]byte{0, 0, 1, 0xb9}, tail)})) // the rest never comes
+	}
+	// an audio frame in several PES packets of which only the first carries PTS / DTS: the later ones take over both
+	for _, at := range []byte{0x0f, 0x90} {
+		a := []byte{0xff, 0xf1, 0x50, 0x80, 1, 0x1f, 0xfc, 0x21}
+		g.L("boundary-audio-dts").run(c13BodyOp([][]byte{c13Psm(0x1b, at), c13Pes(0xc0, 3, 90000, 45000, 0, a), c13Pes(0xc0, 0, 0, 0, 0, a), c13Pes(0xc0, 0, 0, 0, 2, a),
+			c13Pes(0xc0, 2, 93600, 0, 0, a), c13Pes(0xc0, 0, 0, 0, 0, a), c13Pes(0xc0, 3, 97200, 96000, 0, a), c13Pes(0xc0, 1, 0, 7200, 0, a), c13Pes(0xc0, 2, 100800, 0, 0, a)}))
+		g.L("boundary-audio-dts").run(c13BodyOp([][]byte{c13Psm(0x1b, at), c13Pes(0xc0, 0, 0, 0, 0, a), c13Pes(0xc0, 0, 0, 0, 0, a), c13Pes(0xc0, 1, 0, 9000, 0, a), c13Pes(0xc0, 3, 90000, 45000, 0, a),
+			c13Pes(0xc0, 0, 0, 0, 0, a), c13Pes(0xc0, 2, 93600, 0, 0, a)}))
 	}
 	for code := 0; code < 256; code++ { // every stream id after 000001
 		g.L("every-code").run(c13BodyOp([][]byte{c13Psm(0x1b, 0x0f), c13Lenned(byte(code), []byte{0x80, 0x80, 5, 0x21, 0, 1, 0, 1, 0xaa})}))
@@ -789,6 +812,24 @@ func genC13(g *G) {
 	sessRun("out-of-order", 0, 0, "nil", []string{media[0], c13Req{"OPTIONS", c13Uri, "2", "", nil}.tok()})                                                                       // interleaved data before ANNOUNCE
 	sessRun("out-of-order", 0, 0, "nil", append(reqToks(pubReqs(c13Transports[0], c13Transports[1])[:2]), media...))                                                              // data before SETUP: every channel 0
 	sessRun("out-of-order", 0, 0, "nil", append(append(reqToks(pubReqs(c13Transports[0], c13Transports[1])), reqToks(pubReqs(c13Transports[1], c13Transports[0]))...), media...)) // second ANNOUNCE
+	{                                                                                                                                                                             // one ANNOUNCE or DESCRIBE per connection: the second one (either kind, plain or WebSocket) ends the session
+		ann := c13Req{"ANNOUNCE", c13Uri, "2", "", sdp0}.tok()
+		des := c13Req{"DESCRIBE", c13Uri, "3", "", nil}.tok()
+		opt := c13Req{"OPTIONS", c13Uri, "4", "", nil}.tok()
+		for ws := 0; ws <= 1; ws++ {
+			for _, d := range []string{hx(sdp0), "nil"} {
+				sessRun("second-session", ws, 0, d, []string{ann, ann, opt})
+				sessRun("second-session", ws, 0, d, []string{des, des, opt})
+				sessRun("second-session", ws, 0, d, []string{ann, des, opt})
+				sessRun("second-session", ws, 0, d, []string{des, ann, opt})
+			}
+		}
+		sessRun("second-session", 0, 0, "no", []string{des, des, opt})                                                              // the first DESCRIBE is refused by the observer
+		sessRun("second-session", 0, 1, hx(sdp0), []string{des, des, ann, des, opt})                                                // challenges create no session
+		sessRun("second-session", 0, 0, hx(sdp0), []string{c13Req{"ANNOUNCE", "rtsp://", "1", "", sdp0}.tok(), ann, opt})           // a refused ANNOUNCE creates none either
+		sessRun("second-session", 0, 0, hx(sdp0), []string{ann, c13Req{"ANNOUNCE", c13Uri, "5", "", []byte("garbage")}.tok(), opt}) // sdp is parsed before the check
+		sessRun("second-session", 0, 0, hx(sdp0), []string{des, c13Req{"DESCRIBE", "rtsp://", "5", "", nil}.tok(), opt})            // so is the uri
+	}
 	for _, u := range []string{"", "/live/t", "rtsp://", "http://h/live/t", "rtsp://h:x/live/t", "rtsp://h"} {
 		sessRun("bad-uri", 0, 0, hx(sdp0), []string{c13Req{"ANNOUNCE", u, "1", "", sdp0}.tok(), c13Req{"OPTIONS", c13Uri, "2", "", nil}.tok()})
 		sessRun("bad-uri", 0, 0, hx(sdp0), []string{c13Req{"DESCRIBE", u, "1", "", nil}.tok(), c13Req{"OPTIONS", c13Uri, "2", "", nil}.tok()})
@@ -898,6 +939,43 @@ func genC13(g *G) {
 	}
 	for _, cl := range []string{"0", "1", "-0", "-1", "-9223372036854775808", "+5", "99999"} {
 		g.L("content-length").run("fz.rtsp.cl " + c13hs(cl))
+	}
+
+	// ===== rtsp.msg: lal's message reader, Content-Length against the bytes that follow =====
+	msgOp := func(kind string, v *string, avail []byte) string {
+		if v == nil {
+			return fmt.Sprintf("rtsp.msg %s none - %s", kind, hx(avail))
+		}
+		return fmt.Sprintf("rtsp.msg %s %s %s %s", kind, c13hs(*v), c13Atoi(*v), hx(avail))
+	}
+	for _, kind := range []string{"req", "resp"} {
+		for _, avail := range [][]byte{nil, {1, 2, 3, 4}, {1, 2, 3, 4, 5, 6}} {
+			g.L("boundary").run(msgOp(kind, nil, avail))
+			for _, v := range []string{"", "0", "1", "3", "4", "5", "6", "7", "-0", "-1", "-4", "-9223372036854775808", "-9223372036854775809", "9223372036854775807", "9223372036854775808",
+				"+4", "99999", "1048575", "1048576", "1048577", "281474976710656", "281474976710657", "abc", " 4 ", "4 5", "0x4", "4.0", "1e3", "04", "4:4", "--4"} {
+				v := v
+				g.L("boundary").run(msgOp(kind, &v, avail))
+			}
+		}
+	}
+	for i := 0; i < g.scale(150, 3000); i++ {
+		var v string
+		switch r.Intn(5) {
+		case 0:
+			v = strconv.FormatInt(int64(r.U64()), 10)
+		case 1:
+			v = strconv.Itoa(r.Intn(40) - 8)
+		case 2:
+			v = strconv.Itoa(r.Pick(1048576, 1048577, 65536, 1<<31, -1<<31, 1<<32))
+		case 3:
+			v = string(r.Bytes(r.Intn(4)))
+			if strings.ContainsAny(v, "\r\n") {
+				v = "x"
+			}
+		default:
+			v = strconv.Itoa(r.Intn(24))
+		}
+		g.L("random").run(msgOp(r.PickS("req", "resp"), &v, r.Bytes(r.Intn(24))))
 	}
 	for _, p := range []string{"/hls/test.m3u8", "/hls/test/playlist.m3u8", "/hls/test/test-1.ts", "/hls/test-1.ts?session_id=x", "/hls/", "/hls", "/", "/hls/...m3u8", "/hls/a/b/c/d.m3u8",
 		"/hls/.m3u8", "/hls/x.ts", "/hls/x.m3u8?session_id=", "/hls/x.m3u8?session_id=zz", "/hls/%2e%2e/x.m3u8", "/hls/x.m3u8?%zz", "//x.m3u8", "/hls/test..ts", "/hls/-.ts", "/hls/a-.ts", "*"} {
